@@ -376,8 +376,11 @@ class GaussianMerge(Compiler):
             between = (after & before) - set(block)
             if not between:
                 break
-            after = set().union(*(nx.descendants(self.DAG, gate) for gate in between))
-            before = set().union(*(nx.ancestors(self.DAG, gate) for gate in between))
+            # one operation in between at a time: op is either before it, after it or unrelated to
+            # it, so at least one merged operation on the other side of it is removed
+            separator = next(iter(between))
+            after = nx.descendants(self.DAG, separator)
+            before = nx.ancestors(self.DAG, separator)
             merged_gaussian_ops = [
                 gate
                 for gate in merged_gaussian_ops
